@@ -74,7 +74,8 @@ struct SignState {
 
 fn universe(thorough: bool) -> Vec<(u8, u8)> {
     let mut v = vec![];
-    let ns = if thorough { keys::N_SIG_DET } else { keys::N_SIG_FAST };
+    // quick: Schnorr, ECDSA, Ed25519 and SSH-Ed25519; thorough: all deterministic schemes
+    let ns = if thorough { keys::N_SIG_DET } else { keys::N_SIG_FAST + 1 };
     for s in 0..ns {
         for id in 0..3u8 {
             v.push((s, id));
@@ -188,7 +189,7 @@ pub fn run_sign(scn: &Scenario, ctx: &mut Ctx) {
             Some(s) => s,
             None => continue,
         };
-        let nsch = if thorough { keys::N_SIG_DET } else { keys::N_SIG_FAST } as u64;
+        let nsch = if thorough { keys::N_SIG_DET } else { keys::N_SIG_FAST + 1 } as u64;
         match op {
             "S.Sign" => {
                 let sch = (st.arg(0) % nsch) as u8;
@@ -239,7 +240,10 @@ pub fn run_sign(scn: &Scenario, ctx: &mut Ctx) {
                             ctx.probe("ssh-scheme");
                         }
                     }
-                    Err(p) => ctx.violate_sig("C16.no-panic", format!("add_signature_opt panicked: {}", p), p),
+                    Err(p) => {
+                        ctx.checked();
+                        ctx.violate_sig("C09.table", format!("adding a signature with key ({},{}){} panicked instead of producing a signature that verifies: {}", sch, id, if meta { " and metadata" } else { "" }, p), p);
+                    }
                 }
                 ctx.t(&format!("S.Sign {} {} meta={}", sch, id, meta));
             }
@@ -450,6 +454,7 @@ pub fn run_sign(scn: &Scenario, ctx: &mut Ctx) {
                     Some(e) => e,
                     None => continue,
                 };
+                // (threshold 0 is outside the property's quantifier; it is exercised for panics by the C16 call shapes)
                 for t in 1..=n + 1 {
                     ctx.checked();
                     match guarded(|| env.has_signatures_from_threshold(&refs, Some(t))) {
@@ -465,7 +470,7 @@ pub fn run_sign(scn: &Scenario, ctx: &mut Ctx) {
                             }
                         }
                         Ok(Err(e)) => ctx.violate("C09.threshold", format!("threshold verification failed with an error: {}", e)),
-                        Err(p) => ctx.violate_sig("C16.no-panic", format!("has_signatures_from_threshold panicked: {}", p), p),
+                        Err(p) => ctx.violate_sig("C09.threshold", format!("threshold verification (threshold {}, {} of {} signed) panicked: {}", t, count, n, p), p),
                     }
                     let v = guarded(|| env.verify_signatures_from_threshold(&refs, Some(t)));
                     if let Ok(v) = v {
@@ -670,9 +675,29 @@ pub fn run_recip(scn: &Scenario, ctx: &mut Ctx) {
         match op {
             "R.Subject" | "R.Whole" => {
                 let whole = op == "R.Whole";
-                if !whole && om.subject().is_obscured() {
+                // only an elided or already encrypted subject cannot be encrypted; a compressed one can
+                if !whole && matches!(om.subject().obsc(), Obsc::Elided | Obsc::Encrypted(_) | Obsc::Some) {
                     continue;
                 }
+                // sometimes the original is first brought into a rarer shape: a subject that is itself a node
+                // (compress whole, add an assertion, uncompress the subject), or a compressed subject
+                let orig = match (st.arg(3) >> 4) % 6 {
+                    0 if om.is_node() => match orig.compress().map(|c| c.add_assertion("outer", 1)).and_then(|c| c.uncompress_subject()) {
+                        Ok(e) => {
+                            ctx.probe("subject-is-a-node");
+                            e
+                        }
+                        Err(_) => orig.clone(),
+                    },
+                    1 if om.is_node() && om.subject().obsc().is_clear() => match orig.compress_subject() {
+                        Ok(e) => {
+                            ctx.probe("compressed-subject-with-assertions");
+                            e
+                        }
+                        Err(_) => orig.clone(),
+                    },
+                    _ => orig.clone(),
+                };
                 let base = if whole { orig.wrap_envelope() } else { orig.clone() };
                 if matches!(om.kind(), MKind::Wrapped(_)) && om.obsc().is_clear() && whole {
                     ctx.probe("whole-form-of-a-wrapped-original");
